@@ -152,11 +152,16 @@ func libSubListsT(subs []uSub, template bool) (uePolicyContainer.UEPolicySection
 		for _, in := range s.instrs {
 			var li uePolicyContainer.Instruction
 			li.SetUpsc(in.upsc)
+			var one uePolicyContainer.UEPolicyPart // template mode: ONE part variable, refilled for every part
 			for _, p := range in.parts {
-				var lp uePolicyContainer.UEPolicyPart
+				var fresh uePolicyContainer.UEPolicyPart
+				lp := &fresh
+				if template {
+					lp = &one
+				}
 				lp.UEPolicyPartType.SetPartType(p.typ)
 				lp.SetPartContent(cloneB(p.val))
-				li.UEPolicySectionContents.AppendUEPolicyPart(&lp)
+				li.UEPolicySectionContents.AppendUEPolicyPart(lp)
 			}
 			sl.UEPolicySectionManagementSubListContents.AppendInstruction(li)
 		}
